@@ -79,6 +79,14 @@ KW_POS = [("column_and_pk_list", "CREATE TABLE t1 (a int, {X} int, PRIMARY KEY (
           ("column_between_options", "CREATE TABLE t1 (a int NOT NULL DEFAULT 5, {X} varchar(10) NOT NULL, c int);", _col(1))]
 
 
+# keyword-shaped column names in ALTER TABLE statements: about half of the keywords are typed as keywords there (the name-position
+# guards of the lexer cover column lists of CREATE TABLE only) - recorded deviation KF-C06-alter-keyword-column, tag kw_in_alter
+KW_POS_ALTER = [("alter_drop_column", "CREATE TABLE t1 (a int, {X} int);\nALTER TABLE t1 DROP COLUMN {X};", lambda r: ([c["name"] for c in r[0]["columns"]] == ["a"]) and "{X}"),
+                ("alter_add_column", "CREATE TABLE t1 (a int);\nALTER TABLE t1 ADD {X} int;", lambda r: r[0]["columns"][1]["name"]),
+                ("alter_rename_to", "CREATE TABLE t1 (a int);\nALTER TABLE t1 RENAME COLUMN a TO {X};", lambda r: r[0]["columns"][0]["name"]),
+                ("alter_unique_list", "CREATE TABLE t1 (a int, {X} int);\nALTER TABLE t1 ADD UNIQUE ({X});", lambda r: r[0]["alter"]["uniques"][0]["columns"][0])]
+
+
 def strip_all(x):
     """what normalize_names=True must turn a normalize_names=False result into"""
     if isinstance(x, dict):
@@ -105,7 +113,11 @@ def templates(tb):
     t_alter = [("kw", kw("ALTER")), ("kw", kw("TABLE")), ("name", ids), ("kw", kw("ADD")), ("kw", kw("UNIQUE")), ("lp", kw("(")), ("name", ids), ("rp", kw(")"))]
     t_index = [("kw", kw("CREATE")), ("kw", kw("INDEX")), ("name", ids), ("kw", kw("ON")), ("name", ids), ("lp", kw("(")), ("name", ids), ("rp", kw(")"))]
     t_seq = [("kw", kw("CREATE")), ("kw", kw("SEQUENCE")), ("name", ids), ("kw", kw("START")), ("val", kw("5"))]
-    return {"table": t_table, "constraint": t_cons, "reference": t_ref, "alter": t_alter, "index": t_index, "sequence": t_seq}, reps, allw
+    t_like = [("kw", kw("CREATE")), ("kw", kw("TABLE")), ("name", ids), ("kw", kw("LIKE")), ("name", ids)]
+    t_check = [("kw", kw("CREATE")), ("kw", kw("TABLE")), ("name", ids[:1]), ("lp", kw("(")), ("name", names), ("type", kw("int")), ("kw", kw("CHECK")), ("lp", kw("(")),
+               ("name", ids), ("id", kw(">")), ("val", kw("0")), ("rp", kw(")")), ("comma", kw(",")), ("name", names[:12] + ids), ("type", kw("int")), ("rp", kw(")"))]
+    t_alter_cols = [("kw", kw("ALTER")), ("kw", kw("TABLE")), ("name", ids), ("kw", kw("RENAME")), ("kw", kw("COLUMN")), ("name", ids), ("kw", kw("TO")), ("name", ids)]
+    return {"like": t_like, "check": t_check, "alter_rename": t_alter_cols, "table": t_table, "constraint": t_cons, "reference": t_ref, "alter": t_alter, "index": t_index, "sequence": t_seq}, reps, allw
 
 
 def run(tier, seed):
@@ -131,7 +143,7 @@ def run(tier, seed):
     ndrift = 0
     nlex = 0
     driftex = []
-    for name in ("table", "constraint", "reference", "alter", "index", "sequence"):
+    for name in ("table", "constraint", "reference", "alter", "index", "sequence", "like", "check", "alter_rename"):
         g = F.mc(F.consts(tb, [tps[name]], WithHist="TRUE"), "generation " + name, timeout=1200)
         behs = g.beh
         if not thorough and len(behs) > 4000:
@@ -158,20 +170,28 @@ def run(tier, seed):
             tasks.append((ddl, {}, {}))
             tasks.append((ddl, {"normalize_names": True}, {}))
             meta.append((pid, "keyword", form, ext, ddl))
+    for pid, tpl, ext in KW_POS_ALTER:
+        for k in kws:
+            form = k.lower()
+            ddl = tpl.replace("{X}", form) + "\n"
+            tasks.append((ddl, {}, {}))
+            tasks.append((ddl, {"normalize_names": True}, {}))
+            meta.append((pid, "keyword_in_alter", form, (lambda r, e=ext, f=form: (e(r) if e(r) != "{X}" else f)), ddl))
     outs, nu = C.parse_many(tasks)
     for i, (pid, fid, form, ext, ddl) in enumerate(meta):
+        tags = {"kw_in_alter"} if fid == "keyword_in_alter" else set()
         of, on = outs[2 * i], outs[2 * i + 1]
         case = {"position": pid, "form": fid, "identifier": form, "ddl": ddl}
         if of[0] != "ok":
-            V.mismatch(dict(case, problem="raised", error=of[1:3]), paths=["raised"])
+            V.mismatch(dict(case, problem="raised", error=of[1:3]), tags=tags, paths=["raised"])
             continue
         try:
             got = ext(of[1])
         except Exception as e:  # noqa
-            V.mismatch(dict(case, problem="name not reported at its position (" + type(e).__name__ + ")", result=of[1]), paths=["missing"])
+            V.mismatch(dict(case, problem="name not reported at its position (" + type(e).__name__ + ")", result=of[1]), tags=tags, paths=["missing"])
             continue
         if got != form:
-            V.mismatch(dict(case, problem="name not verbatim", reported=got), paths=["verbatim"])
+            V.mismatch(dict(case, problem="name not verbatim", reported=got), tags=tags, paths=["verbatim"])
             continue
         if on[0] != "ok":
             V.mismatch(dict(case, problem="normalize_names=True raised", error=on[1:3]), paths=["raised_normalized"])
@@ -181,8 +201,9 @@ def run(tier, seed):
             V.mismatch(dict(case, problem="normalize_names=True is not the plain result with one delimiter pair stripped from each identifier",
                             paths=C.diff_paths(want, on[1])[:6]), paths=["normalized"])
     rc = V.finish()
+    cov["known_findings_met"] = V.hits
     cov.update({"states": states, "transitions": trans, "traces_validated_against_impl": nlex + len(meta),
-                "api_cases": {"positions": len(POSITIONS), "forms": len(FORMS), "keywords_as_column_names": len(kws), "keyword_positions": len(KW_POS)},
+                "api_cases": {"positions": len(POSITIONS), "forms": len(FORMS), "keywords_as_column_names": len(kws), "keyword_positions": len(KW_POS), "keyword_positions_in_alter (recorded deviation)": len(KW_POS_ALTER)},
                 "samples": [{"position": meta[10][0], "identifier": meta[10][2], "ddl": meta[10][4]}], "exhaustive": True})
     C.write_evidence(PID, tier, seed, cov, time.time() - t0, len(V.viol),
                      ["keyword tables are read from the working tree's tokens.py (a keyword moved between tables changes a constant and is judged by NameIsID)",
